@@ -239,7 +239,8 @@ func (e *env) runForced(progs []prog, sched []int, debug bool) result {
 				o = mk(ev.Tid, "LCancel", int(a(0)), 0, hum)
 			case "summon.woke", "summon.load", "summon.body", "summon.store", "summon.exit", "summon.broadcast",
 				"swamp.mapdelete", "swamp.destroy.drained", "summon.slotdelete",
-				"swamp.idle.read", "swamp.idle.close", "swamp.autodestroy", "summon.predec", "summon.predelete":
+				"swamp.idle.read", "swamp.idle.close", "swamp.autodestroy", "summon.predec", "summon.predelete",
+				"swamp.close.gate", "swamp.destroy.gate":
 				continue
 			default:
 				res.unknownEv = append(res.unknownEv, ev.Site)
@@ -519,8 +520,8 @@ func (e *env) stress(rng *common.Rng, round int, nsummon, nnames int, dur time.D
 		if len(ev.Args) == 0 {
 			continue
 		}
-		lbl, ok := map[string]string{"swamp.new": "LNew", "swamp.cancelling": "LCancelled", "swamp.close.begin": "LCloseBegin",
-			"swamp.destroy.begin": "LDBegin", "swamp.callback": "LCbStart"}[ev.Site]
+		lbl, ok := map[string]string{"swamp.new": "LNew", "swamp.cancelling": "LCancelled", "swamp.close.gate": "LCloseBegin",
+			"swamp.destroy.gate": "LDBegin", "swamp.callback": "LCbStart"}[ev.Site]
 		if !ok {
 			continue
 		}
